@@ -158,8 +158,9 @@ Definition step (s : state) (l : label) : option state :=
 
 (* ---------- operation-level wrapper used by the correspondence check ---------- *)
 Inductive op :=
-| OBoot (t : nat) (hid : Z) (p : payload)     (* complete Bootstrap call *)
-| OBegin (t : nat) (hid : Z) (p : payload)    (* Bootstrap whose transaction is parked *)
+| OBoot (t : nat) (h : option Z) (p : payload)   (* complete Bootstrap call; h = the request header: None = no header
+                                                   message at all, Some id = header carrying cluster id `id` *)
+| OBegin (t : nat) (h : option Z) (p : payload)  (* Bootstrap whose transaction is parked *)
 | OFinish (t : nat) (o : outcome)             (* release it with this storage outcome; includes the winner's start *)
 | OIsBoot
 | OReload
@@ -167,7 +168,7 @@ Inductive op :=
 | OMemInit (m : nat)                          (* complete initClusterID *)
 | OMemBegin (m : nat)                         (* initClusterID whose transaction is parked *)
 | OMemFinish (m : nat) (o : outcome)
-| OWrong (h : string).                        (* handler h called with a mismatching cluster id *)
+| OCall (name : string) (h : option Z).       (* handler `name` called with an otherwise empty request and header h *)
 
 Inductive obs :=
 | BOk | BAlready | BInvalid (k : invalid) | BConflict | BEtcdErr | BMismatch
@@ -185,6 +186,9 @@ Fixpoint index_of (x : Z) (l : list Z) (n : nat) : option nat :=
   match l with [] => None | y :: r => if x =? y then Some n else index_of x r (S n) end.
 Definition rename (sn : list Z) (v : Z) : list Z * nat :=
   match index_of v sn 0 with Some k => (sn, k) | None => (app sn [v], List.length sn) end.
+
+(* RequestHeader.GetClusterId(): protobuf getters are nil-safe, a request without header carries id 0 *)
+Definition hid_of (h : option Z) : Z := match h with Some z => z | None => 0 end.
 
 Definition the_cid : Z := 7.    (* the serving member's cluster id in the wrapper; requests carry 7 or something else *)
 Definition rinit : rstate := R (init the_cid) 100 [].
@@ -242,9 +246,9 @@ Definition lift (r : rstate) (x : option (state * obs)) : rstate * obs :=
 Definition run_op1 (r : rstate) (o : op) : rstate * obs :=
   let s := rs r in
   match o with
-  | OBegin t hid p => lift r (boot_begin s t hid p)
-  | OBoot t hid p =>
-      match boot_begin s t hid p with
+  | OBegin t h p => lift r (boot_begin s t (hid_of h) p)
+  | OBoot t h p =>
+      match boot_begin s t (hid_of h) p with
       | Some (s1, BStarted) => lift r (boot_finish s1 t Ok)
       | x => lift r x
       end
@@ -267,9 +271,11 @@ Definition run_op1 (r : rstate) (o : op) : rstate * obs :=
                end
       end
   | OMemFinish m oc => mem_finish r m oc
-  | OWrong h => (r, if exempt h then BAccepted
-                    else if String.eqb h "RegionHeartbeat" && negb (running s) then BNotBoot  (* answers NOT_BOOTSTRAPPED before it validates *)
-                    else BMismatch)
+  | OCall name h =>
+      (r, if exempt name then BAccepted
+          else if String.eqb name "RegionHeartbeat" && negb (running s) then BNotBoot  (* answers NOT_BOOTSTRAPPED before it validates *)
+          else if hid_of h =? scid s then BAccepted                                   (* got past the validation *)
+          else BMismatch)
   end.
 
 Definition view_of (r : rstate) : view :=
@@ -331,6 +337,15 @@ Definition records_same (a b : view) : bool :=
   Bool.eqb (v_root a) (v_root b) && Bool.eqb (v_time a) (v_time b)
   && list_eqb Z.eqb (v_stores a) (v_stores b) && list_eqb Z.eqb (v_regions a) (v_regions b).
 
+(* the header of a request that must be refused: Some h when the op carries a header whose id is not the cluster's
+   (and the handler is not one of the three exempt ones) *)
+Definition foreign_hdr (o : op) : option (option Z) :=
+  match o with
+  | OBoot _ h _ | OBegin _ h _ => if (hid_of h =? the_cid)%Z then None else Some h
+  | OCall name h => if exempt name || (hid_of h =? the_cid)%Z then None else Some h
+  | _ => None
+  end.
+
 Definition payload_of_op (o : op) : option payload :=
   match o with OBoot _ _ p | OBegin _ _ p => Some p | _ => None end.
 
@@ -374,9 +389,19 @@ Fixpoint mon (prev : view) (oks : list payload) (pend : list (nat * payload)) (i
               | OBoot _ _ _, BConflict | OFinish _ Ok, BConflict => negb (v_root prev)
               | _, _ => false
               end then Some "C20:bootstrap-refused-although-nothing-is-stored"
-      (* 4. mismatching cluster id is refused *)
-      else if match o, b with OWrong h, BAccepted => negb (exempt h) | OBoot _ hid _, BOk | OBegin _ hid _, BStarted => negb (hid =? the_cid)%Z | _, _ => false end
-      then Some "C20:mismatched-cluster-id-accepted"
+      (* 4. a request that carries a different cluster id - a wrong one, 0, or no header at all - does not get past
+            the validation: whatever it is answered, it is the mismatch refusal (RegionHeartbeat without a running
+            cluster: NOT_BOOTSTRAPPED) *)
+      else if match foreign_hdr o, b with
+              | Some _, BMismatch | Some _, BNotBoot | Some _, BBad => false
+              | Some None, _ => true
+              | _, _ => false
+              end then Some "C20:headerless-request-accepted"
+      else if match foreign_hdr o, b with
+              | Some _, BMismatch | Some _, BNotBoot | Some _, BBad => false
+              | Some (Some _), _ => true
+              | _, _ => false
+              end then Some "C20:mismatched-cluster-id-accepted"
       (* 5. members agree on one cluster id, and it never changes *)
       else if existsb (fun k => negb (Nat.eqb k 0)) ids1 then Some "C20:members-disagree-on-cluster-id"
       else if match v_cid prev, v_cid v with Some a, Some c => negb (Nat.eqb a c) | Some _, None => true | _, _ => false end
